@@ -120,6 +120,8 @@ func (w *rdWorld) handler(l int) http.Handler {
 			switch n.Loc {
 			case "rel":
 				loc = fmt.Sprintf("/c%d/n%d%s", id, n.To, suffix)
+			case "net": // network-path reference (RFC 3986 4.2): keeps the scheme, names another authority
+				loc = fmt.Sprintf("//%s/c%d/n%d%s", w.ls[cs.Nodes[n.To].L].HostText, id, n.To, suffix)
 			case "bad":
 				loc = "http://[::1"
 			}
@@ -450,6 +452,9 @@ func c10(c *Ctx) {
 			}
 			if r.Chance(3) {
 				cs.Nodes[d].Loc = "bad"
+			}
+			if cs.Nodes[d].Loc == "abs" && w.ls[cs.Nodes[d].L].Scheme == w.ls[cs.Nodes[d+1].L].Scheme && r.Chance(30) {
+				cs.Nodes[d].Loc = "net" // `Location: //host:port/path` — not absolute, yet it may leave the host
 			}
 		}
 		if r.Chance(8) && depth > 0 { // a loop
